@@ -1,15 +1,11 @@
 #!/bin/bash
 # usage: tools/try_mutant.sh <patch.diff> <ID> [tier]   -- applies patch to /repo, runs check, reverts
 set -u
-P=$1; ID=$2; TIER=${3:-quick}
+P=$(realpath "$1"); ID=$2; TIER=${3:-quick}
 cd /repo || exit 2
 if ! git diff --quiet; then echo "repo dirty"; exit 2; fi
-if ! git apply --check "$P" 2>/dev/null; then
-  if ! git apply --3way "$P" 2>/dev/null; then echo "PATCH DOES NOT APPLY: $P"; git checkout -- . ; exit 3; fi
-  git reset -q
-else
-  git apply "$P"
-fi
+if ! git apply --check "$P" 2>/dev/null; then echo "PATCH DOES NOT APPLY: $P"; exit 3; fi
+git apply "$P"
 cd /verif && ./check "$ID" --tier "$TIER" 2>/tmp/try_mutant.err | grep -E "^(VIOLATION|KNOWN|HELD|INCONCLUSIVE)" | cut -c1-300
 rc=${PIPESTATUS[0]}
 git -C /repo checkout -- .
